@@ -59,6 +59,7 @@ def metrics_einsums(draw, n_min=1, n_max=1, max_vars=3, allow_partition=True):
         part_info = {S.out_name(e): (e, [v.upper() for v in S.expr_vars(e)]) for e in spec["exprs"]}
     spec["rank_order"] = {}
     sizes = {}
+    all_space = draw(st.integers(0, 3)) == 0
     for out, (expr, vs) in part_info.items():
         vs = [v.upper() for v in S.expr_vars(expr)]
         groups = []
@@ -85,7 +86,9 @@ def metrics_einsums(draw, n_min=1, n_max=1, max_vars=3, allow_partition=True):
         lo = draw(gen.interleave(list(draw(st.permutations(groups)))))
         spec["loop_order"][out] = lo
         k = draw(st.integers(0, len(lo)))
-        spec["spacetime"][out] = {"space": lo[:k] if draw(st.booleans()) else [], "time": None}
+        if all_space:
+            k = len(lo)        # every loop rank spatial: empty temporal prefix, so consecutive Einsums can be fused
+        spec["spacetime"][out] = {"space": lo[:k] if (all_space or draw(st.booleans())) else [], "time": None}
         sp = spec["spacetime"][out]["space"]
         spec["spacetime"][out]["time"] = [r for r in lo if r not in sp]
     return spec, sizes
@@ -166,8 +169,10 @@ def hardware_for(draw, spec, configs=("accel",), force=None):
             fmt_name[(out, t)] = found
     # ---- bindings
     bindings = {}
+    memory_only = draw(st.integers(0, 5)) == 0     # only memory traffic is timed (one shared, non-functional component)
+    one_cfg = draw(st.sampled_from(list(configs))) if draw(st.booleans()) else None
     for out in outs:
-        cfg = draw(st.sampled_from(list(configs)))
+        cfg = one_cfg or draw(st.sampled_from(list(configs)))
         names = comp_names[cfg]
         per, lo = orders[out]
         entry = [{"config": cfg, "prefix": "tmp/" + out}]
@@ -199,11 +204,27 @@ def hardware_for(draw, spec, configs=("accel",), force=None):
                             break
             return bl
         mb = membind(names["mem"], False)
-        if mb and draw(st.integers(0, 4)) > 0:
+        if mb and (memory_only or draw(st.integers(0, 4)) > 0):
             entry.append({"component": names["mem"], "bindings": mb})
         bb = membind(names["buf"], buf_class == "Buffet")
-        if bb and draw(st.integers(0, 3)) > 0:
+        if mb and draw(st.booleans()):
+            # mirror the DRAM bindings in the buffer, so that the buffer's fills have a source memory whose traffic is timed
+            have = set((b["tensor"], b["rank"], b["type"]) for b in bb)
+            eager_t = set(b["tensor"] for b in bb if b.get("style") == "eager")
+            for b in mb:
+                if (b["tensor"], b["rank"], b["type"]) in have or b["tensor"] in eager_t:
+                    continue
+                nb = dict(b)
+                if buf_class == "Buffet":
+                    r = b["rank"]
+                    i = lo.index(r) if r in lo else len(lo)
+                    nb["evict-on"] = draw(st.sampled_from((["root"] + lo)[:i + 1]))
+                bb.append(nb)
+        if bb and (memory_only or draw(st.integers(0, 3)) > 0):
             entry.append({"component": names["buf"], "bindings": bb})
+        if memory_only:
+            bindings[out] = entry
+            continue
         if draw(st.integers(0, 4)) > 0 or force.get("compute"):
             entry.append({"component": names["mul"], "bindings": [{"op": "mul"}]})
         if draw(st.integers(0, 4)) > 0:
